@@ -248,6 +248,15 @@ func c18Run(c *core.Ctx) {
 			if !apply(wm.Op{Kind: "add", Spec: p}) {
 				return
 			}
+		case k < 17 && r.Chance(0.4): // a new area given by explicit loops (holes, several polygons): exported as geometry
+			a := g.ExplicitArea()
+			if len(a.Polys) > 1 || len(a.Polys[0].Loops) > 1 {
+				c.Count("added_explicit_area_with_several_loops")
+			}
+			c.Count("added_explicit_area")
+			if !apply(wm.Op{Kind: "add", Spec: a}) {
+				return
+			}
 		case k < 17: // a new area: ring points, closed path, area
 			ps, ring := g.Ring(int64(r.Intn(160000))-80000, int64(r.Intn(160000))-80000, 2000+float64(r.Intn(2000)), r.Range(3, 6), false)
 			for _, p := range ps {
